@@ -11,9 +11,18 @@ EXTRA["C34"] = {
             "executed on one import (with / without alias; file seen before or not; read / parse succeed or fail) with "
             "reading, parsing and the recursive load stubbed and insert_imported_namespace recording its calls; decided: "
             "every resolved import runs that step exactly once with its alias, the importing and the imported namespace. "
-            "Native two-file, diamond and duplicate-import projects are the user-visible oracle.",
-    "note": "Trusted: rsx, association-list model of FxHashMap/FxHashSet, z3. The checker side "
-            "(infer_namespace_access), path resolution and the contents of cyclically loaded files are outside the claim.",
+            "Part C (checker kernel): the real TypeCheckVisitor::infer_namespace_access is executed on a receiver that resolves to a "
+            "namespace with 0..2 values / exported names (symbolic names; item a named function, an anonymous function or an Int) "
+            "or to a local, a non-variable, nothing or another value; decided: defined-but-not-exported and undefined names get an "
+            "Error-severity diagnostic at the accessed symbol, an exported name gets none and is typed from its own value. "
+            "Part D (loader fun-arm kernel): the real `fun` arm of load_toplevel_items_ on one public / non-public definition from a "
+            "namespace that may already hold (and export) the same or another name; decided: afterwards the name is exported iff "
+            "this definition is public, it is defined, and no other name's export status changes. "
+            "Native two-file, diamond, duplicate-import and redefinition projects (run and check) are the user-visible oracle.",
+    "note": "Trusted: rsx, association-list model of FxHashMap/FxHashSet, z3. In part C check_expr on the receiver, get_var, "
+            "Type::from_value and fun_info are stubs and only severity and position of diagnostics are inspected. Path resolution, "
+            "the contents of cyclically loaded files, and export maintenance for items other than `fun` (types and methods are not "
+            "in exported_syms) are outside the claim.",
     "design_ref": "DESIGN.md section 6, C34",
 }
 
